@@ -252,7 +252,7 @@ def job(args):
 
 
 def run(tier, seed):
-    n = 112 if tier == "quick" else 1400
+    n = 112 if tier == "quick" else 700
     res = Result()
     for r in core.pmap(job, [(seed, i, tier) for i in range(n)]):
         res.merge(r)
